@@ -22,6 +22,8 @@ type optDecl struct {
 type program struct {
 	Opts []optDecl `json:"opts"`
 	Args []string  `json:"args"`
+	// Order, when given, is the declaration order: "o<i>" = Opts[i], "a<j>" = Args[j] (default: options, then arguments)
+	Order []string `json:"order"`
 }
 
 func loadPrograms() []program {
@@ -126,9 +128,19 @@ func runExec(p program, c execCase) (r execResult) {
 			os.Unsetenv(envVarOf(k))
 		}
 	}
+	for _, a := range p.Args {
+		if envset["A:"+a] {
+			os.Setenv(envVarOf("A:"+a), "env")
+		} else {
+			os.Unsetenv(envVarOf("A:" + a))
+		}
+	}
 	defer func() {
 		for _, o := range p.Opts {
 			os.Unsetenv(envVarOf(optKey(o.Names)))
+		}
+		for _, a := range p.Args {
+			os.Unsetenv(envVarOf("A:" + a))
 		}
 	}()
 
@@ -159,16 +171,34 @@ func runExec(p program, c execCase) (r execResult) {
 	if c.Spec != nil {
 		app.Spec = *c.Spec
 	}
-	for _, o := range p.Opts {
+	declOpt := func(o optDecl) {
 		k := optKey(o.Names)
 		l, b := new([]string), new(bool)
 		logs["O:"+k], sbu["O:"+k] = l, b
 		app.Var(cli.VarOpt{Name: o.Names, EnvVar: envVarOf(k), Value: &rec{flag: o.Flag, log: l}, SetByUser: b})
 	}
-	for _, a := range p.Args {
+	declArg := func(a string) {
 		l, b := new([]string), new(bool)
 		logs["A:"+a], sbu["A:"+a] = l, b
-		app.Var(cli.VarArg{Name: a, Value: &rec{log: l}, SetByUser: b})
+		app.Var(cli.VarArg{Name: a, EnvVar: envVarOf("A:" + a), Value: &rec{log: l}, SetByUser: b})
+	}
+	if len(p.Order) == 0 {
+		for _, o := range p.Opts {
+			declOpt(o)
+		}
+		for _, a := range p.Args {
+			declArg(a)
+		}
+	} else {
+		for _, x := range p.Order {
+			var i int
+			fmt.Sscanf(x[1:], "%d", &i)
+			if x[0] == 'o' {
+				declOpt(p.Opts[i])
+			} else {
+				declArg(p.Args[i])
+			}
+		}
 	}
 	// what happened at declaration time (environment) is kept apart
 	for k, l := range logs {
